@@ -542,6 +542,23 @@ func (validateStream) Generate(rng *rand.Rand, tier string, emit func(Case)) {
 		}
 		emit(Case{"op": "admit_doc", "doc": docToProto(d), "label": "annotations-at-size-limit"})
 	}
+	// documents larger than 1 MiB: well-formed, and with their only defect in the last device, beyond the first MiB
+	for _, defect := range []string{"", "name", "env", "extra"} {
+		d := obj("cdiVersion", jstr("0.6.0"), "kind", jstr("vendor.com/class"), "devices", jarr{
+			obj("name", jstr("dev0"), "containerEdits", obj("env", jarr{jstr("PAD=" + strings.Repeat("x", 1200000))})),
+			obj("name", jstr("dev1"), "containerEdits", obj("env", jarr{jstr("A=b")}))})
+		devs, _ := d.get("devices")
+		last := devs.(jarr)[1].(*jobj)
+		switch defect {
+		case "name":
+			last.set("name", jstr("bad name!"))
+		case "env":
+			last.set("containerEdits", obj("env", jarr{jstr("NOASSIGNMENT")}))
+		case "extra":
+			last.set("unknownField", jstr("x"))
+		}
+		emit(Case{"op": "admit_doc", "doc": docToProto(d), "label": "beyond-1MiB-" + defect})
+	}
 	for _, kind := range mutationKinds {
 		for i := 0; i < perKind; i++ {
 			d := g.spec()
@@ -634,7 +651,28 @@ func (validateStream) Execute(c Case) {
 			if err != nil || raw == nil {
 				return
 			}
-			obs["aux"] = validateAux(raw, obs["json"] == "accepted")
+			aux := validateAux(raw, obs["json"] == "accepted")
+			// admission is a function of the document: after every name of the document has been through the other
+			// name validators (a vendor as a device name, a device name as a class, ...) the verdict is the same
+			names := []string{raw.Kind}
+			if v, cl := parser.ParseQualifier(raw.Kind); v != "" {
+				names = append(names, v, cl)
+			}
+			for i := range raw.Devices {
+				names = append(names, raw.Devices[i].Name)
+			}
+			func() {
+				defer func() { _ = recover() }()
+				for _, nm := range names {
+					_, _, _ = parser.ValidateDeviceName(nm), parser.ValidateVendorName(nm), parser.ValidateClassName(nm)
+					_ = parser.IsQualifiedName("primer.com/class=" + nm)
+					_ = parser.IsQualifiedName(nm + "/" + nm + "=" + nm)
+				}
+			}()
+			if again := admitVerdict(func() error { _, err := cdi.ReadSpec(pj, 0); return err }); again != obs["json"] {
+				aux = append(aux, fmt.Sprintf("ReadSpec of the same file: %v at first, %s after its names went through the name validators", obs["json"], again))
+			}
+			obs["aux"] = aux
 			dw := filepath.Join(validateRoot, "w")
 			cache, _ := cdi.NewCache(cdi.WithSpecDirs(dw), cdi.WithAutoRefresh(false))
 			if err := cache.WriteSpec(raw, "out.json"); err != nil {
